@@ -119,7 +119,7 @@ theorem div_nonvoxel {n m : Neuron} {f : Factor} {p : Int} (hk : n.kind ≠ .vox
 
 theorem mul_voxel {n m : Neuron} {f : Factor} {p : Int} (hk : n.kind = .voxel) (h : mul n f p = some m) :
     f.nz = true ∧ m = { n with
-        units := (⟨n.units.mag.mul f.xyz, n.units.base⟩ : Units).compact p,
+        units := ⟨n.units.mag.mul f.xyz, n.units.base⟩,
         offset := n.offset.mul f.xyz,
         conns := n.conns.map (fun c => c.mul f.xyz) } := by
   unfold mul at h
@@ -131,7 +131,7 @@ theorem mul_voxel {n m : Neuron} {f : Factor} {p : Int} (hk : n.kind = .voxel) (
 
 theorem div_voxel {n m : Neuron} {f : Factor} {p : Int} (hk : n.kind = .voxel) (h : div n f p = some m) :
     f.nz = true ∧ m = { n with
-        units := (⟨n.units.mag.div f.xyz, n.units.base⟩ : Units).compact p,
+        units := ⟨n.units.mag.div f.xyz, n.units.base⟩,
         offset := n.offset.div f.xyz,
         conns := n.conns.map (fun c => c.div f.xyz) } := by
   unfold div at h
@@ -150,7 +150,7 @@ theorem xyz_nz {f : Factor} (h : f.nz = true) : f.xyz.x ≠ 0 ∧ f.xyz.y ≠ 0 
 theorem rad_nz {f : Factor} (h : f.nz = true) : f.rad ≠ 0 := by
   cases f with
   | s k => simpa [Factor.nz, Factor.rad] using h
-  | v3 v => simp [Factor.rad]
+  | v3 v => simp only [Factor.nz] at h; simpa [Factor.rad] using ((nz_iff v).mp h).1
   | v4 v r => simp only [Factor.nz, Bool.and_eq_true] at h; simpa [Factor.rad] using h.2
 
 /-- physical step of the rescaled unit times the factor is the old physical step -/
@@ -293,14 +293,14 @@ theorem mul_div_cancel_all {n m n' : Neuron} {f : Factor} {p p' : Int}
     have hf := xyz_nz hnz
     have hc : List.map (fun c => c.div f.xyz) (List.map (fun c => c.mul f.xyz) n.conns) = n.conns := by
       rw [List.map_map]; exact map_id' _ _ (fun c => v3_mul_div c _ hf)
-    have hp := units_roundtrip_phys' n.units f.xyz p p' hf
-    refine ⟨rfl, rfl, rfl, hc, v3_mul_div _ _ hf, rfl, rfl, hp, ?_⟩
-    intro hb
-    have hbase := compact_compact_base (fun v => v.mul f.xyz) (fun v => v.div f.xyz) n.units p p' hb
-    have hu := units_eq_of_phys hbase hp
-    cases n
-    simp only [Neuron.mk.injEq, true_and, and_true]
-    exact ⟨hc, v3_mul_div _ _ hf, hu⟩
+    have hu : (⟨(n.units.mag.mul f.xyz).div f.xyz, n.units.base⟩ : Units) = n.units := by rw [v3_mul_div _ _ hf]
+    refine ⟨rfl, rfl, rfl, hc, v3_mul_div _ _ hf, rfl, rfl, ?_, ?_⟩
+    · show (⟨(n.units.mag.mul f.xyz).div f.xyz, n.units.base⟩ : Units).phys = _
+      rw [hu]
+    · intro _
+      cases n
+      simp only [Neuron.mk.injEq, true_and, and_true]
+      exact ⟨hc, v3_mul_div _ _ hf, hu⟩
   · obtain ⟨hnz, rfl⟩ := mul_nonvoxel hk h1
     obtain ⟨_, rfl⟩ := div_nonvoxel (by simpa using hk) h2
     have hf := xyz_nz hnz
@@ -330,14 +330,14 @@ theorem div_mul_cancel_all {n m n' : Neuron} {f : Factor} {p p' : Int}
     have hf := xyz_nz hnz
     have hc : List.map (fun c => c.mul f.xyz) (List.map (fun c => c.div f.xyz) n.conns) = n.conns := by
       rw [List.map_map]; exact map_id' _ _ (fun c => v3_div_mul c _ hf)
-    have hp := units_roundtrip_phys n.units f.xyz p p' hf
-    refine ⟨rfl, rfl, rfl, hc, v3_div_mul _ _ hf, rfl, rfl, hp, ?_⟩
-    intro hb
-    have hbase := compact_compact_base (fun v => v.div f.xyz) (fun v => v.mul f.xyz) n.units p p' hb
-    have hu := units_eq_of_phys hbase hp
-    cases n
-    simp only [Neuron.mk.injEq, true_and, and_true]
-    exact ⟨hc, v3_div_mul _ _ hf, hu⟩
+    have hu : (⟨(n.units.mag.div f.xyz).mul f.xyz, n.units.base⟩ : Units) = n.units := by rw [v3_div_mul _ _ hf]
+    refine ⟨rfl, rfl, rfl, hc, v3_div_mul _ _ hf, rfl, rfl, ?_, ?_⟩
+    · show (⟨(n.units.mag.div f.xyz).mul f.xyz, n.units.base⟩ : Units).phys = _
+      rw [hu]
+    · intro _
+      cases n
+      simp only [Neuron.mk.injEq, true_and, and_true]
+      exact ⟨hc, v3_div_mul _ _ hf, hu⟩
   · obtain ⟨hnz, rfl⟩ := div_nonvoxel hk h1
     obtain ⟨_, rfl⟩ := mul_nonvoxel (by simpa using hk) h2
     have hf := xyz_nz hnz
@@ -445,7 +445,7 @@ theorem convArg_xyz (c : V3) : (if c.iso = true then Factor.s c.x else Factor.v3
 theorem convert_spec {n m : Neuron} {tgt p : Int} (hk : n.kind ≠ .voxel) (h : convertUnits n tgt p = some m) :
     m.units.phys = V3.rep (pow10 tgt) ∧ (p = tgt → m.units = ⟨V3.rep 1, .metre tgt⟩) ∧
       physPts m = physPts n ∧ physConns m = physConns n ∧
-      (n.units.iso = true → physRadii m = physRadii n) ∧ m.name = n.name ∧ m.id = n.id := by
+      physRadii m = physRadii n ∧ m.name = n.name ∧ m.id = n.id := by
   unfold convertUnits at h
   cases hc : convFactor n.units tgt with
   | none => simp [hc] at h
@@ -473,15 +473,13 @@ theorem convert_spec {n m : Neuron} {tgt p : Int} (hk : n.kind ≠ .voxel) (h : 
       apply units_eq_of_phys
       · rw [hm]; simp only; rw [compact_base_metre _ e p (by simp [hb]), hp]
       · rw [hu]; apply V3.ext' <;> simp [Units.phys, V3.mul, V3.rep, Base.scale]
-    · intro hiso
-      have hci : c.iso = true := by
-        obtain ⟨a1, a2⟩ := (iso_iff _).mp hiso
-        rw [iso_iff, hcv]; simp [V3.mul, V3.rep, a1, a2, ← a1]
-      apply mul_physRadii hk h
-      rw [if_pos hci]; simp [Factor.rad, Factor.xyz, V3.rep]
+    · apply mul_physRadii hk h
+      by_cases hci : c.iso = true
+      · rw [if_pos hci]; simp [Factor.rad, Factor.xyz, V3.rep]
+      · rw [if_neg hci]; simp [Factor.rad, Factor.xyz]
 
 theorem convert_isSome {n : Neuron} {tgt p e : Int} (hk : n.kind ≠ .voxel) (hb : n.units.base = .metre e)
-    (hnz : n.units.mag.nz = true) (ht : n.kind = .tree → n.units.iso = true) :
+    (hnz : n.units.mag.nz = true) :
     (convertUnits n tgt p).isSome = true := by
   have hto := pow10_ne_zero tgt
   have he := pow10_ne_zero e
@@ -497,12 +495,7 @@ theorem convert_isSome {n : Neuron} {tgt p e : Int} (hk : n.kind ≠ .voxel) (hb
     · simp [Factor.nz, V3.mul, V3.rep, h1, hr]
   · rw [if_neg hi]
     constructor
-    · cases hkk : n.kind
-      · exfalso
-        apply hi
-        obtain ⟨a1, a2⟩ := (iso_iff _).mp (ht hkk)
-        rw [iso_iff]; simp [V3.mul, V3.rep, a1, a2, ← a1]
-      all_goals simp_all [acceptsScale]
+    · cases hkk : n.kind <;> simp_all [acceptsScale]
     · simp [Factor.nz, V3.nz, V3.mul, V3.rep, h1, h2, h3, hr]
 
 /-! ### rounding -/
@@ -526,32 +519,91 @@ theorem roundHalfEven_int (z : Int) : roundHalfEven (z : Rat) = z := by
   simp [Rat.floor_intCast]
 
 theorem roundSmart_spec {q r : Rat} (h : roundSmart q = some r) :
-    0 < q ∧ q - 1 / (2 * (10 : Rat) ^ smartDecimals q) ≤ r ∧ r ≤ q + 1 / (2 * (10 : Rat) ^ smartDecimals q) := by
+    q - 1 / (2 * (10 : Rat) ^ smartDecimals q) ≤ r ∧ r ≤ q + 1 / (2 * (10 : Rat) ^ smartDecimals q) := by
   unfold roundSmart at h
-  split at h
-  · cases h
-  · rename_i hq
-    simp only [Option.some.injEq] at h
-    have hpos := ten_pow_pos (smartDecimals q)
-    have hb := roundHalfEven_bound (q * (10 : Rat) ^ smartDecimals q)
-    generalize (roundHalfEven (q * (10 : Rat) ^ smartDecimals q) : Rat) = R at *
-    generalize (10 : Rat) ^ smartDecimals q = T at *
-    subst h
-    refine ⟨lt_of_not_ge hq, ?_, ?_⟩
-    · rw [le_div_iff₀ hpos]
-      have : (q - 1 / (2 * T)) * T = q * T - 1 / 2 := by field_simp
-      linarith [hb.1]
-    · rw [div_le_iff₀ hpos]
-      have : (q + 1 / (2 * T)) * T = q * T + 1 / 2 := by field_simp
-      linarith [hb.2]
+  simp only [Option.some.injEq] at h
+  have hpos := ten_pow_pos (smartDecimals q)
+  have hb := roundHalfEven_bound (q * (10 : Rat) ^ smartDecimals q)
+  generalize (roundHalfEven (q * (10 : Rat) ^ smartDecimals q) : Rat) = R at *
+  generalize (10 : Rat) ^ smartDecimals q = T at *
+  subst h
+  refine ⟨?_, ?_⟩
+  · rw [le_div_iff₀ hpos]
+    have : (q - 1 / (2 * T)) * T = q * T - 1 / 2 := by field_simp
+    linarith [hb.1]
+  · rw [div_le_iff₀ hpos]
+    have : (q + 1 / (2 * T)) * T = q * T + 1 / 2 := by field_simp
+    linarith [hb.2]
 
-theorem roundSmart_exact {q : Rat} (hq : 0 < q) (z : Int) (hz : q * (10 : Rat) ^ smartDecimals q = z) :
+theorem roundSmart_isSome (q : Rat) : (roundSmart q).isSome = true := rfl
+
+theorem roundSmart_exact {q : Rat} (z : Int) (hz : q * (10 : Rat) ^ smartDecimals q = z) :
     roundSmart q = some q := by
   unfold roundSmart
-  rw [if_neg (not_le.mpr hq), hz, roundHalfEven_int, ← hz]
+  rw [hz, roundHalfEven_int, ← hz]
   have hpos := ten_pow_ne_zero (smartDecimals q)
   simp only [Option.some.injEq]
   field_simp
+
+theorem roundSmart_zero : roundSmart 0 = some 0 := by
+  apply roundSmart_exact 0; simp
+
+/-- Python's `round` is symmetric: half-to-even of `-q` is minus that of `q` -/
+theorem roundHalfEven_neg (q : Rat) : roundHalfEven (-q) = -roundHalfEven q := by
+  have h1 := Rat.floor_le q
+  have h2 := Rat.lt_floor_add_one q
+  push_cast at h2
+  by_cases hi : (q.floor : Rat) = q
+  · obtain ⟨z, rfl⟩ : ∃ z : Int, q = (z : Rat) := ⟨q.floor, hi.symm⟩
+    have : -(z : Rat) = ((-z : Int) : Rat) := by push_cast; rfl
+    rw [this, roundHalfEven_int, roundHalfEven_int]
+  · have hlt : (q.floor : Rat) < q := lt_of_le_of_ne h1 hi
+    have hf : (-q).floor = -q.floor - 1 := by
+      have a1 : -q.floor - 1 ≤ (-q).floor := by rw [Rat.le_floor_iff]; push_cast; linarith
+      have a2 : (-q).floor < -q.floor := by rw [Rat.floor_lt_iff]; push_cast; linarith
+      omega
+    unfold roundHalfEven
+    simp only [hf]
+    push_cast
+    by_cases ha : q - q.floor < 1 / 2
+    · have hb : ¬ (-q - (-(q.floor : Rat) - 1) < 1 / 2) := by linarith
+      have hc : (1 : Rat) / 2 < -q - (-(q.floor : Rat) - 1) := by linarith
+      simp only [ha, hb, hc, if_true, if_false]; omega
+    · by_cases hb : (1 : Rat) / 2 < q - q.floor
+      · have hc : -q - (-(q.floor : Rat) - 1) < 1 / 2 := by linarith
+        simp only [ha, hb, hc, if_true, if_false]; omega
+      · have he : q - q.floor = 1 / 2 := by linarith
+        have hc : ¬ (-q - (-(q.floor : Rat) - 1) < 1 / 2) := by linarith
+        have hd : ¬ ((1 : Rat) / 2 < -q - (-(q.floor : Rat) - 1)) := by linarith
+        simp only [ha, hb, hc, hd, if_false]
+        by_cases hp : q.floor % 2 = 0
+        · have : ¬ ((-q.floor - 1) % 2 = 0) := by omega
+          simp only [hp, this, if_true, if_false]; omega
+        · have : (-q.floor - 1) % 2 = 0 := by omega
+          simp only [hp, this, if_true, if_false]; omega
+
+theorem rabs_neg (q : Rat) : rabs (-q) = rabs q := by
+  unfold rabs
+  by_cases h : q < 0
+  · have : ¬ (-q < 0) := by linarith
+    simp [h, this]
+  · by_cases h0 : q = 0
+    · subst h0; simp
+    · have : -q < 0 := by
+        have : 0 < q := lt_of_le_of_ne (not_lt.mp h) (Ne.symm h0)
+        linarith
+      simp [h, this]
+
+theorem smartDecimals_neg (q : Rat) : smartDecimals (-q) = smartDecimals q := by
+  unfold smartDecimals; rw [rabs_neg]
+
+/-- `round_smart` keeps the sign: a negative number is rounded like its absolute value -/
+theorem roundSmart_neg (q : Rat) : roundSmart (-q) = (roundSmart q).map (fun r => -r) := by
+  unfold roundSmart
+  simp only [Option.map_some, Option.some.injEq, smartDecimals_neg]
+  rw [neg_mul, roundHalfEven_neg]
+  push_cast
+  ring
 
 /-! ### map_units -/
 
